@@ -16,7 +16,7 @@ Oracle   A (C, C++, ObjC, Java): code_stream(clex(in)) == code_stream(clex(out))
 import os
 import random
 
-from vf import core, corpus, family, gen_c, layout, mutate, registry, tokrel
+from vf import gen_cpp, core, corpus, family, gen_c, layout, mutate, registry, tokrel
 
 BUILDS = ('fast',)
 LEVEL = 'exploration'
@@ -105,6 +105,28 @@ def extreme_cfgs(ex, counter, quick):
     return out
 
 
+def make_strategy_cpp():
+    from hypothesis import strategies as st
+    return st.tuples(gen_cpp.cpp_program(max_snippets=4), st.integers(0, 2 ** 32 - 1), st.integers(0, 2 ** 32 - 1))
+
+
+def to_case_cpp(v):
+    toks, lseed, cseed = v
+    rng = random.Random(lseed)
+    src, r = layout.render(toks, rng, 'CPP', dict(bs_cmt=0.1))
+    crng = random.Random(cseed)
+    k = cseed % 5
+    cfgd = {} if k == 0 else family.apply_exclusions(registry.random_cfg(crng, CLASSES, (0.01, 0.03, 0.08, 0.2)[k - 1]), _EX)
+    if k in (1, 2):      # the position options move tokens across line breaks (and across // comments if a guard is missing)
+        for o in crng.sample(POS_OPTS, 3):
+            cfgd[o] = crng.choice(['lead', 'trail', 'lead_break', 'trail_break', 'lead_force', 'trail_force', 'join'])
+    return family.Case(src.encode('utf-8'), 'CPP', cfgd, {'kind': 'generated-cpp', 'layout_seed': lseed, 'cfg_seed': cseed})
+
+
+POS_OPTS = ['pos_arith', 'pos_assign', 'pos_bool', 'pos_compare', 'pos_conditional', 'pos_comma', 'pos_enum_comma', 'pos_class_comma',
+            'pos_constr_comma', 'pos_class_colon', 'pos_constr_colon', 'pos_shift']
+
+
 def iarf_ws_options():
     return [o for o in registry.ws_options() if registry.is_iarf(o)]
 
@@ -159,6 +181,7 @@ def main(ctx):
     raw = family.explore(ctx, judge, cases)
     # (c) generated programs
     raw += family.hyp_explore(ctx, judge, make_strategy, to_case, shards=16, examples=(70 if quick else 3000))
+    raw += family.hyp_explore(ctx, judge, make_strategy_cpp, to_case_cpp, shards=16, examples=(60 if quick else 3000))
     family.triage(ctx, judge, raw)
     acc = ctx.evaluations
     if ctx.counts.get('refused', 0) > 0.5 * max(1, acc + ctx.counts.get('refused', 0)):
